@@ -108,10 +108,13 @@ def run(ctx):
         frun = roles.f_run
         n = 0
         for arm, outcome, p in lm.iteration_paths():
-            if arm is None or outcome == "unreachable":
+            if outcome == "unreachable":
                 continue
-            n += 1
             sets = [(pos, bb, t) for pos, bb, t in p.calls() if cname(t["func"]) == fs.path]
+            if arm is None and not any(("writes" in eff.of_call(frun, bb, t) or any(x.startswith("shim:") for x in eff.of_call(frun, bb, t)))
+                                       for pos, bb, t in p.calls() if cname(t["func"]) != fs.path):
+                continue   # no command was dispatched and nothing was written on this path (end of stream, read error)
+            n += 1
             first_effect = None
             for pos, bb, t in p.calls():
                 e = eff.of_call(frun, bb, t)
